@@ -1313,7 +1313,12 @@ func (c *Conn) writeResponse(code int, enhCode EnhancedCode, text ...string) {
 
 	lastLineIndex := len(text) - 1
 	for i := 0; i < lastLineIndex; i++ {
-		c.text.PrintfLine("%d-%v", code, text[i])
+		if enhCode == NoEnhancedCode {
+			c.text.PrintfLine("%d-%v", code, text[i])
+		} else {
+			// RFC 2034: the enhanced code is part of every line of the reply
+			c.text.PrintfLine("%d-%v.%v.%v %v", code, enhCode[0], enhCode[1], enhCode[2], text[i])
+		}
 	}
 	if enhCode == NoEnhancedCode {
 		c.text.PrintfLine("%d %v", code, text[lastLineIndex])
